@@ -20,6 +20,7 @@ import (
 	"github.com/shutter-network/rolling-shutter/rolling-shutter/medley/identitypreimage"
 	"github.com/shutter-network/rolling-shutter/rolling-shutter/p2pmsg"
 
+	"verif/canon"
 	"verif/explore"
 	"verif/harness/kpx"
 	"verif/report"
@@ -203,8 +204,11 @@ func c01Object(c *report.Ctx, n, t int) {
 		MaxDepth: 64,
 		Deadline: c.Deadline,
 		Key: func(s c01state) string {
+			// merged on the complete object (every field, also ones the oracle does not
+			// look at: two histories are only merged when nothing in the object tells
+			// them apart), not only on the shares and keys it holds
 			kg, _ := o.build(s.seq)
-			return objDump(kg) + fmt.Sprint("|", s.afterKey)
+			return objDump(kg) + fmt.Sprint("|", s.afterKey) + "|" + canon.Dump(kg, nil)
 		},
 		Expand: func(s c01state, depth int, _ []string, emit func(string, c01state)) {
 			if s.afterKey >= 2 {
